@@ -15,6 +15,11 @@ ASSUMPTIONS = [
     "endpoint numbers are 0..15 (the TP field is 4 bits wide; the interface signal is 7 bits)",
     "header_source.ready is an arbitrary 0/1 pattern with bounded gaps (the header-queue arbiter)",
     "retry flag and sequence number are compared only in ACK TPs (the other subtypes have no such fields)",
+    "openloop sub: callers pulse send_* without looking at ready (request handlers, control / stream endpoints via the "
+    "endpoint multiplexer), so a strobe can fall in any cycle relative to the previous packet's acceptance by the "
+    "header queue; whether it is a request is decided solely by the DUT's ready output in that cycle (a strobe in a "
+    "not-ready cycle is not a request and must produce nothing, as for held strobes above); a strobe held over two "
+    "ready cycles is two requests",
 ]
 
 KINDS = ["ack", "stall", "nrdy", "erdy"]
@@ -218,6 +223,152 @@ class TpGenSub(Sub):
         return Result(ok=True, nontrivial=nt, labels=tuple(sorted(labels)))
 
 
+def _judge_packet(n, t, kind, f, ts, hdr):
+    p = hp.parse_tp(*hdr)
+    if p["type"] != hp.TYPE_TP:
+        return fail(f"request {n}: header type {p['type']:#x} is not a transaction packet",
+                    signature="wrong-header-type")
+    if p["subtype"] != SUBTYPE[kind]:
+        return fail(f"request {n}: {kind.upper()} requested in cycle {t} but a {p['subtype_name']} TP "
+                    f"was sent in cycle {ts} ({_fmt(hdr)})",
+                    signature=f"{kind}-request-sends-{p['subtype_name'].lower()}")
+    bad = []
+    if p["address"] != f["addr"]:
+        bad.append(("address", f["addr"], p["address"]))
+    if p["endpoint"] != f["ep"]:
+        bad.append(("endpoint", f["ep"], p["endpoint"]))
+    if kind == "ack":
+        if p["retry"] != f["rty"]:
+            bad.append(("retry", f["rty"], p["retry"]))
+        if p["seq"] != f["seq"]:
+            bad.append(("sequence", f["seq"], p["seq"]))
+    if bad:
+        return fail(f"request {n} ({kind.upper()} in cycle {t}): " +
+                    ", ".join(f"{a} requested {b} sent {c}" for a, b, c in bad) + f" ({_fmt(hdr)})",
+                    signature="wrong-" + "+".join(a for a, _, _ in bad))
+    return None
+
+
+class OpenLoopSub(TpGenSub):
+    """Strobes at planned cycles, no feedback from ready/done: reaches every offset between a strobe and the
+    acceptance of the previous packet (the closed-loop driver above can only strobe from acceptance+1 on)."""
+    name = "openloop"
+    budget = {"quick": 6000, "thorough": 90000}
+    rule = ("open-loop schedules: send_* strobes of 1 cycle (1 in 6: held 2..3 cycles) 0..7 cycles apart, "
+            "regardless of ready/done, so that they fall before, in and after the cycle in which the header queue "
+            "takes the previous packet (queue-ready pattern with 0..7-cycle gaps); fields differ in every cycle; a "
+            "request = a cycle with a strobe in which the DUT's ready output is high; oracle: headers taken at "
+            "header_source equal those requests one-for-one in order, each after its request, with the fields of "
+            "the request cycle; strobes in not-ready cycles produce nothing; non-trivial = some strobe in a "
+            "not-ready cycle, a strobe in the very cycle the queue takes a packet, >= 3 requests of >= 2 kinds")
+
+    def strategy(self):
+        item = st.fixed_dictionaries(dict(
+            gap=weighted([(0, 3), (1, 4), (2, 4), (3, 3), (4, 2), (5, 1), (7, 1)]),   # idle cycles before the strobe
+            kind=weighted([("erdy", 2), ("ack", 2), ("stall", 1), ("nrdy", 2)]),
+            f=_fields(), hold=weighted([(1, 5), (2, 1), (3, 1)])))
+        qpat = st.lists(st.tuples(weighted([(0, 3), (1, 3), (2, 2), (3, 1), (4, 1), (7, 1)]),
+                                  weighted([(1, 4), (2, 1), (5, 1)])).map(list), min_size=1, max_size=6)
+        return st.fixed_dictionaries(dict(items=long_lists(item, min_size=2, max_size=16, average=7), qpat=qpat,
+                                          salt=bits(16)))
+
+    def enumerate(self, tier):
+        # strobe B at every offset 1..r+3 after strobe A whose packet the queue takes r+1 cycles after A
+        f = dict(addr=0x2A, ep=5, rty=1, seq=19)
+        g = dict(addr=0x55, ep=10, rty=0, seq=12)
+        out = []
+        for r in (0, 1, 3):
+            for d in range(1, r + 4):
+                for ka, kb in (("ack", "nrdy"), ("erdy", "ack"), ("nrdy", "stall"), ("stall", "erdy")):
+                    out.append(dict(items=[dict(gap=2, kind=ka, f=f, hold=1), dict(gap=d - 1, kind=kb, f=g, hold=1)],
+                                    qpat=[[2 + 1 + r, 40]], salt=r * 16 + d))
+        return out
+
+    def run(self, case):
+        items = case["items"]
+        qbits = []
+        for zeros, ones in case["qpat"]:
+            qbits += [0] * zeros + [1] * ones
+        script, strobes = [], []           # strobes: (cycle, kind, fields)
+        x = case["salt"] | 1
+
+        def filler():
+            nonlocal x
+            x = (x * 1103515245 + 12345) & 0x7FFFFFFF          # field values in the cycles without a strobe
+            return dict(addr=(x >> 8) & 0x7F, ep=(x >> 15) & 0xF, rty=(x >> 19) & 1, seq=(x >> 20) & 0x1F)
+
+        def emit(kind, f):
+            t = len(script)
+            script.append(dict(ack=int(kind == "ack"), stall=int(kind == "stall"), nrdy=int(kind == "nrdy"),
+                               erdy=int(kind == "erdy"), qready=qbits[t % len(qbits)], **f))
+            if kind is not None:
+                strobes.append((t, kind, f))
+
+        for it in items:
+            for _ in range(it["gap"]):
+                emit(None, filler())
+            for _ in range(it["hold"]):
+                emit(it["kind"], it["f"])
+        for _ in range(12):
+            emit(None, filler())
+        script.append(dict(qready=1))
+        trace = self.h.run_script(script, tail=6)
+        qlog = [v["qready"] for v in script] + [1] * 6
+
+        requested = [(t, k, f) for t, k, f in strobes if trace[t].ready]
+        sent, offered = [], None
+        for t, o in enumerate(trace):
+            if o.valid:
+                hdr = (o.dw0, o.dw1, o.dw2)
+                if offered is not None and offered != hdr:
+                    return fail(f"cycle {t}: header changed while offered and not yet taken "
+                                f"({_fmt(offered)} -> {_fmt(hdr)})", signature="header-unstable")
+                offered = hdr
+                if qlog[t]:
+                    sent.append((t, hdr))
+                    offered = None
+            else:
+                offered = None
+        taken = {t for t, _ in sent}
+        for n, (t, kind, f) in enumerate(requested):
+            if n >= len(sent):
+                at = " -- strobed in the cycle the header queue took the previous packet" if t in taken else ""
+                return fail(f"request {n} ({kind.upper()} strobed in cycle {t}, ready was high) produced no transaction "
+                            f"packet ({len(sent)} sent for {len(requested)} requests){at}",
+                            signature="request-in-acceptance-cycle-lost" if t in taken else "missing-packet")
+            ts, hdr = sent[n]
+            if ts <= t:
+                lost = [u for u, _, _ in requested[:n + 1] if u in taken]
+                return fail(f"packet {n} was taken in cycle {ts}, not after request {n} (cycle {t}): an earlier request "
+                            f"produced no packet of its own" + (f" (request strobed in acceptance cycle {lost[0]})"
+                                                                if lost else ""),
+                            signature="request-in-acceptance-cycle-lost" if lost else "packet-request-misaligned")
+            res = _judge_packet(n, t, kind, f, ts, hdr)
+            if res is not None:
+                if any(u in taken for u, _, _ in requested[:n + 1]):
+                    res.signature = "request-in-acceptance-cycle-lost"
+                return res
+        if len(sent) > len(requested):
+            ts, hdr = sent[len(requested)]
+            return fail(f"{len(sent)} packets sent for {len(requested)} requests made while ready; extra {_fmt(hdr)} "
+                        f"taken in cycle {ts}", signature="extra-packet")
+        labels = {"kind-" + k for _, k, _ in requested}
+        not_ready = [t for t, _, _ in strobes if not trace[t].ready]
+        if not_ready:
+            labels.add("strobe-while-not-ready")
+        in_accept = [t for t, _, _ in strobes if t in taken]
+        if in_accept:
+            labels.add("strobe-in-acceptance-cycle")
+        if any(t - 1 in taken for t, _, _ in strobes):
+            labels.add("strobe-in-cycle-after-acceptance")
+        if any(t + 1 in taken for t, _, _ in strobes):
+            labels.add("strobe-in-cycle-before-acceptance")
+        if any(it["hold"] > 1 for it in items):
+            labels.add("strobe-held")
+        nt = bool(not_ready) and bool(in_accept) and len(requested) >= 3 and len({k for _, k, _ in requested}) >= 2
+        return Result(ok=True, nontrivial=nt, labels=tuple(sorted(labels)))
+
+
 def drv_qready(drv, t):
     return drv.qlog[t] if t < len(drv.qlog) else 0
 
@@ -226,4 +377,4 @@ def _fmt(hdr):
     return "dw0=%08x dw1=%08x dw2=%08x" % hdr
 
 
-SUBS = [TpGenSub()]
+SUBS = [TpGenSub(), OpenLoopSub()]
